@@ -636,3 +636,65 @@ pub proof fn lemma_exit_sorted(f: &Fsm, l: Seq<u32>)
         exit_sorted(f, l),
 {
 }
+
+// ---- history recording (C06) --------------------------------------------------------------------
+pub open spec fn deep_pred(f: &Fsm, s: u32) -> spec_fn(u32) -> bool {
+    |x: u32| is_atomic(f, x) && is_desc(f, x, s)
+}
+
+pub open spec fn shallow_pred(f: &Fsm, s: u32) -> spec_fn(u32) -> bool {
+    |x: u32| parent_of(f, x) == s
+}
+
+/// what history pseudo-state h of the exited state s records: the active atomic descendants of s (deep)
+/// or the active children of s (shallow), taken from the configuration before anything is removed
+pub open spec fn hist_record(f: &Fsm, cfg: Seq<u32>, s: u32, h: u32) -> Seq<u32> {
+    if st(f, h).history_type == HistoryType::Deep {
+        set_add_all(Seq::empty(), cfg.filter(deep_pred(f, s)))
+    } else {
+        set_add_all(Seq::empty(), cfg.filter(shallow_pred(f, s)))
+    }
+}
+
+pub open spec fn hist_inner(f: &Fsm, cfg: Seq<u32>, m: Map<u32, Seq<u32>>, s: u32, hs: Seq<u32>) -> Map<u32, Seq<u32>>
+    decreases hs.len(),
+{
+    if hs.len() == 0 {
+        m
+    } else {
+        hist_inner(f, cfg, m, s, hs.drop_last()).insert(st(f, hs.last()).id, hist_record(f, cfg, s, hs.last()))
+    }
+}
+
+pub open spec fn hist_outer(f: &Fsm, cfg: Seq<u32>, m: Map<u32, Seq<u32>>, l: Seq<u32>) -> Map<u32, Seq<u32>>
+    decreases l.len(),
+{
+    if l.len() == 0 {
+        m
+    } else {
+        hist_inner(f, cfg, hist_outer(f, cfg, m, l.drop_last()), l.last(), st(f, l.last()).history.data@)
+    }
+}
+
+pub proof fn lemma_mask_filter_map<A, B>(s: Seq<A>, keep: Seq<bool>, g: spec_fn(A) -> B)
+    requires
+        keep.len() == s.len(),
+    ensures
+        mask_filter(s, keep).map_values(g) == mask_filter(s.map_values(g), keep),
+    decreases s.len(),
+{
+    if s.len() > 0 {
+        lemma_mask_filter_map(s.drop_last(), keep.drop_last(), g);
+        assert(s.map_values(g).drop_last() == s.drop_last().map_values(g));
+        let r = mask_filter(s.drop_last(), keep.drop_last());
+        if keep.last() {
+            assert(r.push(s.last()).map_values(g) == r.map_values(g).push(g(s.last())));
+        }
+    } else {
+        assert(mask_filter(s, keep).map_values(g) =~= Seq::<B>::empty());
+    }
+}
+
+pub open spec fn state_id_fn<'a>() -> spec_fn(&'a State) -> u32 {
+    |s: &'a State| s.id
+}
